@@ -227,7 +227,8 @@ def run_history(ctx, seed: int, length: int, script: Optional[List[str]] = None,
                     ts = now + 100.0 if young else 1.0                 # old = older than any grace period
                     os.utime(os.path.join(d, f), (ts, ts))
             rec: Optional[Dict[str, Any]] = None
-            if collect_log is not None:
+            if collect_log is not None and (ctx.tier == "quick" or (seed + 7 * step + stats["collects"]) % 3 == 0):
+                # (thorough: a deterministic third of the collections is recorded for the model; the oracle judges all of them)
                 md = gcsim.IndepReader(root).current_metadata()
                 ids = {s["snapshot_id"]: i + 1 for i, s in enumerate(md["snapshots"])}
                 rec = {"seed": seed, "step": step, "grace": grace, "now_ms": int(now * 1000), "tp": t.table_path,
@@ -533,7 +534,7 @@ def violation_key(v: str) -> str:
 
 def make_jobs(ctx) -> List[Dict[str, Any]]:
     quick = ctx.tier == "quick"
-    nh, length = (24, 14) if quick else (240, 40)
+    nh, length = (24, 14) if quick else (140, 40)
     jobs: List[Dict[str, Any]] = []
     for di, script in enumerate(DIRECTED):
         for rep in range(1 if quick else 6):
